@@ -598,7 +598,9 @@ class _Linalg:
                 raise OutOfReach("norm over a symbolic-extent axis")
             tt = z3.simplify(arr.t_z3(t, True), som=True, sort_sums=True)    # canonical polynomial form: equal radicands become one term
             r = SQRT(tt)
-            ax = z3.Implies(tt >= 0, z3.And(r * r == tt, r >= 0))     # instance of the axiom defining sqrt
+            # the radicand is, by construction (a * a summed over the axis), a sum of squares of real terms: it is >= 0
+            # whatever its expanded polynomial form looks like; so the defining axiom of sqrt applies unconditionally
+            ax = z3.And(tt >= 0, r * r == tt, r >= 0)
             if not any(ax.eq(p_) for p_ in sym.CTX.path):
                 sym.CTX.path.append(ax)
             return r
